@@ -4,7 +4,7 @@ use super::hist::*;
 use super::monitors;
 use crate::explore::Chooser;
 use crate::report::*;
-use crate::wgen::{W1, W2, W3, W4};
+use crate::wgen::{W1, W2, W3, W3B, W4, W6};
 use crate::world::Cfg;
 use serde_json::{Value, json};
 use std::collections::BTreeMap;
@@ -85,9 +85,18 @@ fn scenarios_of(prop: &str, tier: Tier) -> Vec<HScn> {
     let q = tier == Tier::Quick;
     match prop {
         "C02" | "C08" => {
-            for (y, l_quick, l_thorough) in [(W1, 2, 3), (W2, 2, 3), (W3, 2, 3), (W4, 2, 3)] {
+            for (y, l_quick, l_thorough) in [(W1, 2, 3), (W2, 2, 3), (W3, 2, 3), (W4, 2, 3), (W3B, 2, 3), (W6, 2, 3)] {
                 let l = if q { l_quick } else { l_thorough };
-                v.push(hscn("hist", y, false, full_cfg(l), Some(1), 48));
+                let mut c = full_cfg(l);
+                if y == W3B {
+                    // every code that some catch of the model names
+                    for a in c.actions.iter_mut() {
+                        if a.0 == "error" {
+                            a.1 = vec![json!({"ecode": "e1"}), json!({"ecode": "e2"}), json!({"ecode": "e3"}), json!({"ecode": "e4"})];
+                        }
+                    }
+                }
+                v.push(hscn("hist", y, false, c, Some(1), 48));
                 if !q {
                     v.push(hscn("hist", y, true, full_cfg(2), Some(2), 48));
                 }
@@ -99,7 +108,7 @@ fn scenarios_of(prop: &str, tier: Tier) -> Vec<HScn> {
         }
         "C03" => {
             // (workflow, keep_processes, deviation bound in the quick tier)
-            let set: [(&str, bool, usize); 8] = [
+            let set: [(&str, bool, usize); 10] = [
                 (W2, false, 1),
                 (W4, false, 1),
                 (W2N, false, 0),
@@ -108,6 +117,8 @@ fn scenarios_of(prop: &str, tier: Tier) -> Vec<HScn> {
                 (W4, true, 0),
                 (W2N, true, 0),
                 (W2B, true, 0),
+                (W6, false, 0),
+                (W6, true, 0),
             ];
             for (y, keep, dq) in set {
                 let mut c = full_cfg(2);
